@@ -78,8 +78,8 @@ type Variant struct {
 	Transfer     bool
 	// Params set by MsgUpdateParams from the authority in the fixture; empty Tax = keep the genesis defaults
 	// (tax 0.4, mint-fee ratio 0.1, base fee 60000stake).
-	Tax, MintRatio string
-	BaseFee        int64
+	Tax, MintRatio  string
+	BaseFee         int64
 	Quick, Thorough int
 }
 
@@ -101,10 +101,13 @@ type model struct {
 	toks    map[string]*tok     // by symbol
 	burned  map[string]*big.Int // min unit -> sum of successful burns
 	evolved bool                // some successful edit / mint / burn / transfer-owner happened
+	// identityBroken: an issue re-using a symbol or min unit was accepted (reported at that step). Two tokens
+	// now share a name, the reference model has no meaning any more: the state is terminal and not judged again.
+	identityBroken bool
 }
 
 func (m *model) Clone() mc.Model {
-	c := &model{toks: map[string]*tok{}, burned: map[string]*big.Int{}, evolved: m.evolved}
+	c := &model{toks: map[string]*tok{}, burned: map[string]*big.Int{}, evolved: m.evolved, identityBroken: m.identityBroken}
 	for k, t := range m.toks {
 		tt := *t
 		tt.Supply = new(big.Int).Set(t.Supply)
@@ -135,7 +138,7 @@ func (m *model) Canon() []byte {
 	for _, k := range sortedKeys(m.burned) {
 		fmt.Fprintf(&b, "b:%s=%s;", k, m.burned[k])
 	}
-	fmt.Fprintf(&b, "ev=%v", m.evolved)
+	fmt.Fprintf(&b, "ev=%v;idb=%v", m.evolved, m.identityBroken)
 	return b.Bytes()
 }
 
@@ -228,6 +231,9 @@ func addrOf(a string) string { return mc.Addr(a).String() }
 func (d *Driver) Enabled(e *mc.Env, s *mc.State) []mc.Op {
 	m := s.Model.(*model)
 	var ops []mc.Op
+	if m.identityBroken {
+		return nil
+	}
 	for _, sp := range d.V.Issues {
 		for _, a := range d.V.IssueBy {
 			ops = append(ops, mc.Op{Name: fmt.Sprintf("issue(%s,%s)", sp.label(), a), Data: opData{kind: "issue", spec: sp, actor: a}})
@@ -397,6 +403,7 @@ func (d *Driver) Apply(e *mc.Env, s *mc.State, op mc.Op) []mc.Finding {
 			if sp.Symbol == nativeSymbol || sp.MinUnit == nativeMinUnit {
 				against = "native-token"
 			}
+			m.identityBroken = true
 			return append(fs, mc.F("C09/identity-reused/issue/"+strings.Join(which, "+")+"/"+against,
 				"%s accepted although %s already identif%s a token", op.Name, strings.Join(which, " and "), map[bool]string{true: "y", false: "ies"}[len(which) > 1]))
 		}
@@ -531,6 +538,9 @@ func (d *Driver) Check(e *mc.Env, s *mc.State) []mc.Finding {
 	m := s.Model.(*model)
 	var fs []mc.Finding
 	s.Nontrivial = m.evolved && len(m.toks) > 0
+	if m.identityBroken {
+		return nil
+	}
 
 	// 1. the full token list: every symbol and every min unit occurs once; the set is native + issued
 	all, err := e.Token.Tokens(s.Ctx, &v1.QueryTokensRequest{})
